@@ -108,9 +108,9 @@ def run(ctx):
     evaluate(ctx, cases)
     n = ctx.n(260, 8000)
     done = 0
-    soft = ctx.t0 + (100 if ctx.tier == "quick" and not ctx.escalated else 1e9)
+    soft = ctx.t0 + (85 if ctx.tier == "quick" and not ctx.escalated else 1e9)
     while done < n and not ctx.out_of_time() and time.time() < soft:
-        k = min(60, n - done)
+        k = min(48, n - done)
         evaluate(ctx, [gen_case(ctx.rng) for _ in range(k)])
         done += k
     _shrinker()[2](ctx)
